@@ -24,10 +24,10 @@ ASCII_POOL = "abcdefgh12!"
 LATIN_POOL = "ae\u00e91\u00f1b\u00fc"          # encodable in latin-1 and utf-8
 CYR_POOL = "\u0434\u0430\u0431\u0440\u043e\u043a1\u0435"            # encodable in cp1251 and utf-8
 # characters check_valid admits although a line reader may treat them specially
-ODD_POOL = "ab\u00a0\u2029\u001c"   # U+001C is rejected by check_valid (kept to exercise the filter); U+2029 and NBSP are admitted
+ODD_POOL = "a\u2029b\u00a0\u001c"   # U+001C is rejected by check_valid (kept to exercise the filter); U+2029 and NBSP are admitted
 
-KINDS = ["len_eq_ngram", "single_len", "mixed", "nonascii", "sparse_alphabet", "dup_heavy", "nonascii", "long", "cp_empty",
-         "big", "mixed", "len_eq_ngram", "single_len"]
+KINDS = ["len_eq_ngram", "single_len", "mixed", "nonascii", "sparse_alphabet", "dup_heavy", "odd", "long", "cp_empty",
+         "big", "mixed", "len_eq_ngram", "single_len", "nonascii"]
 
 
 def _word(rng, pool, n):
@@ -48,13 +48,15 @@ def gen_training(rng, kind=None):
     n = rng.randint(3, 40)
     pws = []
     if kind == "nonascii":
-        which = rng.random()
-        if which < 0.4:
+        if rng.random() < 0.5:
             pool, encoding = LATIN_POOL[:rng.randint(3, 7)], rng.choice(["utf-8", "latin-1", "iso-8859-1"])
-        elif which < 0.8:
-            pool, encoding = CYR_POOL[:rng.randint(3, 8)], rng.choice(["utf-8", "cp1251"])
         else:
-            pool, encoding = ODD_POOL, "utf-8"
+            pool, encoding = CYR_POOL[:rng.randint(3, 8)], rng.choice(["utf-8", "cp1251"])
+        kind2 = rng.choice(["mixed", "len_eq_ngram", "single_len"])
+    elif kind == "odd":
+        # characters check_valid admits (NBSP, U+2029) or filters (U+001C), utf-8
+        pool, encoding = ODD_POOL[:rng.choice([3, 4, 5])], "utf-8"
+        asize = 8
         kind2 = rng.choice(["mixed", "len_eq_ngram", "single_len"])
     else:
         kind2 = kind
@@ -380,3 +382,48 @@ def enumerate_sets(G, levels, cap, seconds, total_seconds, shared=True):
     """E[L] = (list in order, complete, set, error)"""
     E0 = enumerate_all(G, levels, cap, seconds, total_seconds, shared)
     return {L: (v[0], v[1], set(v[0]), v[2]) for L, v in E0.items()}
+
+
+# ---------------------------------------------------------------- shrinking
+
+def shrink_training(cfg, still_fails, seconds=4.0):
+    """Delta-debugging on the password list (then on password lengths) of a
+    failing training configuration; still_fails(cfg) -> bool re-runs the real code."""
+    t0 = time.time()
+    best = dict(cfg)
+    pws = list(best["passwords"])
+
+    def ok(cand):
+        if time.time() - t0 > seconds:
+            return False
+        c = dict(best, passwords=cand)
+        try:
+            return bool(still_fails(c))
+        except Exception:
+            return False
+    n = 2
+    while len(pws) >= 2 and time.time() - t0 < seconds:
+        chunk = max(1, len(pws) // n)
+        reduced = False
+        for i in range(0, len(pws), chunk):
+            cand = pws[:i] + pws[i + chunk:]
+            if cand and ok(cand):
+                pws = cand
+                n = max(n - 1, 2)
+                reduced = True
+                break
+        if not reduced:
+            if chunk == 1:
+                break
+            n = min(len(pws), n * 2)
+    # shorten single passwords from the right
+    for i in range(len(pws)):
+        while len(pws[i]) > 1 and time.time() - t0 < seconds:
+            cand = pws[:i] + [pws[i][:-1]] + pws[i + 1:]
+            if ok(cand):
+                pws = cand
+            else:
+                break
+    best["passwords"] = pws
+    best["kind"] = cfg.get("kind", "") + "/shrunk"
+    return best
